@@ -158,6 +158,15 @@ def run(tier):
         return r
     common.binding_selftest('c05', 'DecoderContract', recs, _corrupt,
                             evaluator=lambda rr: D.eval_traces(rr, 'c05-selftest', shards=1))
+    # union-find clustering invariants (UnionFind_Trace.tla)
+    from . import uf_trace
+    uf_recs, uf_rej, uf_st = uf_trace.run(tier, common.seed())
+    for r in uf_recs:
+        if r['id'] in uf_rej:
+            names = sorted({c.split('@')[0] for c in uf_rej[r['id']]})
+            v.reject(f"C05:UnionFindDecoder@Toric2DCode[{D.shape_tag(r['_size'])}]:clustering:" + names[0],
+                     {'case': r['_label'], 'defects': r['defects'], 'failed': sorted(set(uf_rej[r['id']]))[:6],
+                      'raised': r['raised']})
     rc = v.finish()
     n_dec = sum(1 for r in recs for e in r['events'] if e['kind'] == 'decode')
     by_dec = {}
@@ -166,7 +175,7 @@ def run(tier):
     common.write_evidence(
         'C05', tier, 'model_checking',
         {
-            'states': st['distinct'], 'transitions': st['generated'],
+            'states': st['distinct'] + uf_st['distinct'], 'transitions': st['generated'] + uf_st['generated'],
             'traces_validated_against_impl': len(recs),
             'samples': [{'config': r['_label'], 'events': len(r['events']),
                          'first_decode': r['events'][1] if len(r['events']) > 1 else None}
@@ -180,6 +189,7 @@ def run(tier):
                     'rate, all valid syndromes when few; non-trivial = '
                     'distinct (configuration, non-zero syndrome)',
             'configurations': len(recs), 'configurations_by_decoder': by_dec,
+            'union_find_decodes_traced': len(uf_recs), 'union_find_snapshots_judged': uf_st['distinct'],
             'decode_events': n_dec, 'exhaustive': False,
         },
         time.time() - t0, len(v.violations),
